@@ -1051,7 +1051,7 @@ func DerivesFrom(v ssa.Value, isSource, isSanitizer func(ssa.Value) bool) (reach
 
 // ReturnValue resolves result idx of a return, looking through the
 // defer-spilled form (go/ssa stores results to locals before rundefers and
-// reloads them): the last store to the result cell in the return's block.
+// reloads them).
 func ReturnValue(r *ssa.Return, idx int) ssa.Value {
 	v := r.Results[idx]
 	u, ok := v.(*ssa.UnOp)
@@ -1062,19 +1062,89 @@ func ReturnValue(r *ssa.Return, idx int) ssa.Value {
 	if !ok {
 		return v
 	}
-	var last ssa.Value
-	for _, in := range r.Block().Instrs {
-		if in == ssa.Instruction(u) {
-			break
-		}
-		if st, ok := in.(*ssa.Store); ok && st.Addr == ssa.Value(cell) {
-			last = st.Val
-		}
-	}
-	if last != nil {
-		return last
+	if x := cellValueAt(cell, u, 0); x != nil {
+		return x
 	}
 	return v
+}
+
+// cellValueAt: the value the local cell holds just before instruction at,
+// when that is determined by one store (the last store in the same block, or
+// the nearest dominating store with no other store possibly intervening).
+// A value that is itself a reload of the cell is resolved further. nil = unknown.
+func cellValueAt(cell *ssa.Alloc, at ssa.Instruction, depth int) ssa.Value {
+	if depth > 8 {
+		return nil
+	}
+	resolve := func(val ssa.Value, st ssa.Instruction) ssa.Value {
+		if ld, ok := val.(*ssa.UnOp); ok && ld.Op == token.MUL && ld.X == ssa.Value(cell) {
+			return cellValueAt(cell, ld, depth+1)
+		}
+		return val
+	}
+	b := at.Block()
+	idx := instrIndex(at)
+	for k := idx - 1; k >= 0; k-- {
+		if st, ok := b.Instrs[k].(*ssa.Store); ok && st.Addr == ssa.Value(cell) {
+			return resolve(st.Val, st)
+		}
+	}
+	var stores []*ssa.Store
+	for _, ref := range Refs(cell) {
+		if st, ok := ref.(*ssa.Store); ok && st.Addr == ssa.Value(cell) {
+			stores = append(stores, st)
+		}
+	}
+	var cand *ssa.Store
+	for d := b.Idom(); d != nil && cand == nil; d = d.Idom() {
+		for k := len(d.Instrs) - 1; k >= 0; k-- {
+			if st, ok := d.Instrs[k].(*ssa.Store); ok && st.Addr == ssa.Value(cell) {
+				cand = st
+				break
+			}
+		}
+	}
+	if cand == nil {
+		return nil
+	}
+	reach := func(from, to *ssa.BasicBlock) bool {
+		seen := map[*ssa.BasicBlock]bool{}
+		q := append([]*ssa.BasicBlock{}, from.Succs...)
+		for len(q) > 0 {
+			x := q[0]
+			q = q[1:]
+			if x == to {
+				return true
+			}
+			if seen[x] {
+				continue
+			}
+			seen[x] = true
+			q = append(q, x.Succs...)
+		}
+		return false
+	}
+	for _, st := range stores {
+		if st == cand {
+			continue
+		}
+		if st.Block() == cand.Block() {
+			if instrIndex(st) > instrIndex(cand) {
+				return nil
+			}
+			continue
+		}
+		if st.Block() == b {
+			if instrIndex(st) < idx {
+				return nil
+			}
+			continue
+		}
+		if reach(cand.Block(), st.Block()) && reach(st.Block(), b) {
+			return nil // another store may intervene
+		}
+	}
+	return resolve(cand.Val, cand)
 }
 
 // Returns lists the source-level return instructions of fn (not the
